@@ -41,6 +41,46 @@ N = {
  'C19-b': 'a migration failing at a position that is not the last non-nil pending one, followed by a succeeding migration',
  'C20-a': 'rebroadcast pass with >= 2 unconfirmed txs where the backend rejects one that is sorted before an unrelated one',
  'C20-b': 'rejected tx P with an unconfirmed wallet child spending a NON-credited output of P',
+ 'C01-c': "credit confirmed, spent by a CONFIRMED tx, then the credit's confirmation delivered again (AddCredit repeated)",
+ 'C02-c': 'two wallet-relevant txs conflicting on an outpoint of a tx the store never saw; loser inserted via mempool; winner mined',
+ 'C03-c': 'Extend*Addresses while locked, then Unlock, then PrivKey of a still-cached extended address',
+ 'C04-c': 'Unlock, ChangePassphrase(private) while unlocked, ImportPrivateKey without a lock/unlock in between',
+ 'C05-c': 'ManagedScriptAddress obtained through ForEachAccountAddress and used while unlocked, kept across Lock',
+ 'C06-c': 'minconf > coinbase maturity with a coinbase credit between the two',
+ 'C07-c': 'selected inputs contain P2TR and no (nested) P2WPKH',
+ 'C08-c': 'two address requests for the same branch inside one committed database transaction',
+ 'C09-c': 'imported xpub account with different receive/change counts, reloaded (restart / cache eviction)',
+ 'C10-c': 'NewScopedKeyManager with the fault at exactly its last write',
+ 'C11-c': 'concurrent Batch calls coalesced by bbolt, one failing after a succeeding one',
+ 'C12-c': 'LockOutput on an outpoint whose hash is an unmined wallet tx but which is not a wallet credit',
+ 'C13-c': 'coinbase disconnect + reconnect with an unmined spender, or double spend + reorg + removal (multi-step)',
+ 'C14-c': 'rebroadcast pass where the backend rejects a tx that is not last in the sorted list',
+ 'C15-c': "reorg of depth >= 2; a disconnect for an old-branch block >= new tip + 2 repeated while the wallet's chain is shorter",
+ 'C16-c': 'FilterBlocks error inside a batch, then retry of the sync',
+ 'C17-c': 'private passphrase changed while unlocked, then Unlock(old) without a Lock in between',
+ 'C18-c': 'overflow >= 2 items, consumer takes some and stalls, then a send or Stop',
+ 'C19-c': 'several services in one Upgrade call with an earlier one already up to date',
+ 'C20-c': 'PublishTransaction while no chain backend is attached',
+ 'C01-d': 'confirmed credit leased AND spent by an unconfirmed tx at the same time',
+ 'C02-d': 'parent and child confirmed in the same block, block disconnected, parent re-confirmed alone, child evicted',
+ 'C03-d': 'key imported into the BIP86 scope, then evicted from the cache (MarkUsed / restart), then looked up',
+ 'C04-d': 'ImportPrivateKey while the manager is locked',
+ 'C05-d': 'Encrypt/Decrypt with key type CKTScript while locked',
+ 'C06-d': 'reorg exactly one block deep replacing the tip block that holds a wallet payment, then a minconf >= 1 send',
+ 'C07-d': "a second call of the wallet's input source (first round short by less than the fee difference)",
+ 'C08-d': 'ImportAccountDryRun failing after the account was written, then a committed ImportAccount in the same scope',
+ 'C09-d': "RenameAccount landing between an issuing call's commit and its commit callback",
+ 'C10-d': 'first MarkUsed of an address with its single Put failing; visible at the NEXT call (lock held)',
+ 'C11-d': 'NestedReadBucket on a bucket that is absent at that moment',
+ 'C12-d': '>= 2 leases, one expired and unswept, the last lease in key order still active, then DeleteExpiredLockedOutputs',
+ 'C13-d': 'Rollback detaching a credit whose change flag differs from its mined-spent bit',
+ 'C14-d': 'unconfirmed parent carrying witness data with an unconfirmed child',
+ 'C15-d': 'reorg detaching a block whose coinbase pays the wallet; replacement block at that height with a wallet tx',
+ 'C16-d': 'payment to an internal (change) address of the BIP49Plus scope during recovery',
+ 'C17-d': 'private passphrase longer than 96 bytes, manager already unlocked, wrong passphrase equal in the first 96 bytes',
+ 'C18-d': 'BitcoindClient.Start failing after the queue started, then Start again',
+ 'C19-d': 'a second Upgrade of the wtxmgr service in the same process',
+ 'C20-d': 'rebroadcast with an unconfirmed child spending two outputs of one unconfirmed parent',
 }
 root='/verif/seeded'
 for n in sorted(os.listdir(root)):
@@ -60,7 +100,7 @@ for n in sorted(os.listdir(root)):
         json.dump(m, open(mp,'w'), indent=1)
         continue
     m['needs']=N.get(n, m.get('needs',''))
-    m['source']='independent sub-agent given only the property text and a scratch worktree (round %s)' % ('1' if n.endswith('-a') else '2')
+    m['source']='independent sub-agent given only the property text and a scratch worktree (round %s)' % {'a':'1','b':'2','c':'3','d':'4'}.get(n[-1],'?')
     m['what_i_ran']='scripts/confirm_seed.py (fresh worktree of /repo HEAD: git apply --check, go build, existing tests of touched packages, demo fails with / passes without); scripts/seed_matrix.py (patch applied to /repo working tree, quick tier of the named checks, tree restored)'
     json.dump(m, open(mp,'w'), indent=1)
 print('ok')
